@@ -7,15 +7,20 @@ import (
 	"github.com/jsightapi/jsight-schema-core/notations/jschema/ischema/constraint"
 )
 
-func collectUserTypes(node ischema.Node) []string {
+// collectUserTypes lists the user types the node refers to. types is the table
+// of the schema the node belongs to: it holds the unnamed types made from the
+// rule-sets of `or` rules, which may refer to user types themselves.
+func collectUserTypes(node ischema.Node, types map[string]ischema.Type) []string {
 	c := &userTypesCollector{
 		alreadyProcessed: map[string]struct{}{},
+		types:            types,
 	}
 	c.collect(node)
 	return c.userTypes
 }
 
 type userTypesCollector struct {
+	types            map[string]ischema.Type
 	alreadyProcessed map[string]struct{}
 	userTypes        []string
 }
@@ -48,6 +53,25 @@ func (c *userTypesCollector) collect(node ischema.Node) {
 func (c *userTypesCollector) collectUserTypesFromTypesListConstraint(node ischema.Node) {
 	for _, name := range UserTypeNamesFromTypesListConstraint(node) {
 		c.addType(name)
+	}
+
+	// A rule-set with more than one rule ({type: "@a", nullable: true}) is kept as
+	// an unnamed type; the user type it names is used by the schema all the same.
+	list, ok := node.Constraint(constraint.TypesListConstraintType).(*constraint.TypesList)
+	if !ok || list == nil {
+		return
+	}
+	for _, name := range list.Names() {
+		if name == "" || name[0] != '#' {
+			continue
+		}
+		if _, ok := c.alreadyProcessed[name]; ok {
+			continue
+		}
+		c.alreadyProcessed[name] = struct{}{}
+		if t, ok := c.types[name]; ok && t.Schema != nil && t.Schema.RootNode() != nil {
+			c.collect(t.Schema.RootNode())
+		}
 	}
 }
 
